@@ -202,12 +202,14 @@ def _judge(P, case, traj, f0, tsave, stop_arg, eff, call, restart_it=None):
 
     class Rec(cls):
         def step(self, f, dtloc):
+            log = self._vf_log
             log.append((f.time, sim.copy_data(f), float(np.min(dtloc))))
             if len(log) > 400:
                 from vf.runner import Violation
                 raise Violation("solve-terminates", "more than 400 steps taken for a history of at most 60 steps: the run does not stop (time at entry %r, dt %r)" % (f.time, float(np.min(dtloc))))
             return cls.step(self, f, dtloc)
     solver = call["solver"] if call.get("solver") is not None else Rec(P.mesh, P.disc)
+    solver._vf_log = log          # (a restart re-uses the solver object of the preceding solve, as a user would)
     call["log"] = log
     keep_data, keep_time, keep_it = sim.copy_data(f0), f0.time, f0.it
     directives = {"dtlocal": True} if case["dtlocal"] else {}
@@ -333,12 +335,16 @@ def check_hist(case):
     if case["restart"] and len(res) > 0 and case["integ"] != "gear":
         f1 = res[-1]
         if all(np.all(np.isfinite(d)) for d in f1.data):
-            traj2 = Trajectory(P, case["integ"], case["cfl"], f1, case["dtlocal"])
+            # restart() continues the computation on the same solver object and keeps what that object cached (the Jacobian of a linear
+            # model): the reference continues from a shallow copy of it (with its own step log)
+            refsolver = copy.copy(solver)
+            refsolver._vf_log = []
+            traj2 = Trajectory(P, case["integ"], case["cfl"], f1, case["dtlocal"], prev_solver=refsolver)
             traj2.extend(2)
             if all(sim.admissible(P.smd, s.data) for s in traj2.states):
                 tsave2 = _materialise(traj2, case["tsave2"])
                 stop2, eff2 = _stop_dict(traj2, case["stop2"], tsave2)
-                call2 = dict(name="restart", solver=None)
+                call2 = dict(name="restart", solver=solver)
                 _judge(P, case, traj2, f1, tsave2, stop2, eff2, call2, restart_it=max(f1.it, 0))
                 labels.append("restart")
     return dict(nontrivial=nontrivial, labels=labels)
